@@ -8,8 +8,12 @@ from fractions import Fraction as F
 from harness.proxies import Tape, TapeExhausted, TapeMismatch
 
 
-def outcomes_of(kind, rng, grid):
+def outcomes_of(kind, rng, grid, weights=None):
     """all outcomes of one abstract draw with their weights"""
+    if kind == "weighted":
+        ws = [F(w) for w in (weights if weights is not None else [1] * rng)]
+        tot = sum(ws)
+        return [(i, w / tot) for i, w in enumerate(ws) if w != 0]
     if kind == "uniform":
         return [(v, F(1, rng)) for v in range(rng)]
     if kind == "u01":
@@ -40,7 +44,7 @@ def enumerate_call(fresh_state, do_call, grid=60, max_runs=200000):
             with Tape(mode="script", script=[tuple(s) for s in script]):
                 res = do_call(st)
         except TapeExhausted as e:
-            for v, pw in outcomes_of(e.kind, e.range, grid):
+            for v, pw in outcomes_of(e.kind, e.range, grid, getattr(e, "weights", None)):
                 stack.append((script + [(e.kind, e.range, v)], w * pw))
             continue
         results.append((w, res, script))
